@@ -275,16 +275,39 @@ impl Env {
         let inner: Arc<Mutex<Option<Arc<InternalAPI>>>> = Arc::new(Mutex::new(None));
         let log = Arc::new(Mutex::new(RecLog::default()));
         let rec = Rec { inner: inner.clone(), log: log.clone() };
-        let grpc_addr: SocketAddr = format!("127.0.0.1:{}", free_port()).parse().unwrap();
-        let http_addr: SocketAddr = format!("127.0.0.1:{}", free_port()).parse().unwrap();
+        // the gRPC listener is bound here (port 0) and handed to tonic: no window in which another process could take the port
+        let listener = rt.block_on(async { tokio::net::TcpListener::bind("127.0.0.1:0").await }).expect("bind gRPC listener");
+        let grpc_addr = listener.local_addr().unwrap();
         rt.spawn(async move {
-            tonic::transport::Server::builder().add_service(PublicTowerServicesServer::new(rec)).serve(grpc_addr).await.expect("gRPC server");
+            let incoming = tonic::transport::server::TcpIncoming::from_listener(listener, true, None).expect("gRPC incoming");
+            tonic::transport::Server::builder().add_service(PublicTowerServicesServer::new(rec)).serve_with_incoming(incoming).await.expect("gRPC server");
         });
-        let (ready_trigger, ready) = triggered::trigger();
-        let (shutdown_trigger, shutdown) = triggered::trigger();
-        std::mem::forget(shutdown_trigger); // the API runs until the process exits
-        rt.spawn(teos::api::http::serve(http_addr, grpc_addr, ready_trigger, shutdown));
-        rt.block_on(ready);
+        // http::serve binds its own address: when the port picked was taken in the meantime (16 harnesses start together) its task
+        // dies on the bind and `ready` never fires - pick another port
+        let mut http_addr: SocketAddr = format!("127.0.0.1:{}", free_port()).parse().unwrap();
+        let mut up = false;
+        for _attempt in 0..20 {
+            let (ready_trigger, ready) = triggered::trigger();
+            let (shutdown_trigger, shutdown) = triggered::trigger();
+            std::mem::forget(shutdown_trigger); // the API runs until the process exits
+            rt.spawn(teos::api::http::serve(http_addr, grpc_addr, ready_trigger, shutdown));
+            let ok = rt.block_on(async { tokio::time::timeout(Duration::from_secs(8), ready).await.is_ok() });
+            // `ready` fires just before the server future is polled: make sure it really is this process that listens
+            if ok && (0..200).any(|_| {
+                std::thread::sleep(Duration::from_millis(5));
+                let r = exchange(http_addr, b"GET /ping HTTP/1.1\r\nHost: tower\r\nConnection: close\r\n\r\n", false);
+                r.status == 200
+            }) {
+                up = true;
+                break;
+            }
+            http_addr = format!("127.0.0.1:{}", free_port()).parse().unwrap();
+        }
+        if !up {
+            eprintln!("http harness: cannot start the HTTP API");
+            std::process::exit(3);
+        }
+        let _ = verif_harness::LAST_PANIC.lock().map(|mut g| g.take());
         let _ = std::fs::create_dir_all(&scratch);
         Env { _rt: rt, http_addr, inner, log, scratch, init: initial_chain(), towers: HashMap::new(), builds: 0 }
     }
